@@ -26,6 +26,7 @@ EXPLANATION = (
     "and absolute() without resolution are not accepted; R17.2 the set of body keys that reach a sink in any registered route handler "
     "is covered by the keys the dispatcher guards before dispatch, unconditionally; R17.3 (observation) roots used by guard and "
     "default listing. Does not decide: symlink races in the file system, MIME handling."
+    " R17.3 the guard's root is assigned only the configured directory or the folder that holds the given file (one step up from a given path), never a computed ancestor."
 )
 RULE_TEXT = (
     "one obligation per (source label, sink) flow, per guard site and per containment predicate; non-trivial = flows and guards "
@@ -409,7 +410,7 @@ def rules(ctx: Ctx) -> None:
             bad_succ = [b for b in dcfg.g.successors(c.id) if dcfg.g[c.id][b].get("label") and dcfg.g[c.id][b]["label"][1] is False]
             refuses = bool(bad_succ) and not any(b == H or dcfg.reach(b, H) for b in bad_succ)
             ctx.ob("R17.2", f"guard:refuses:{'+'.join(keys)}", refuses, where, "when the value is outside the root the request is refused and never dispatched")
-            dominates = dcfg.dominates(c.id, H) or _loop_dominates(dcfg, c.id, H)
+            dominates = dcfg.dominates(c.id, H) or _loop_dominates(dcfg, c.id, H) or _covers_when_present(dcfg, c.id, H, keys, payload_name)
             ctx.ob("R17.2", f"guard:before-dispatch:{'+'.join(keys)}", dominates, where, "the guard is evaluated on every path to the dispatch")
             # unconditional apart from key presence and request routing
             facts = dcfg.facts_at(c.id)
@@ -529,6 +530,33 @@ def _sink_name(call: ast.Call) -> str:
     return call.func.attr if isinstance(call.func, ast.Attribute) else u(call.func)
 
 
+def _covers_when_present(cfg, guard: int, H: int, keys: list[str], payload: Optional[str]) -> bool:
+    """Every path to the dispatch that does not evaluate the guard leaves a presence test of the guarded key by its "absent" edge
+    (`'k' in payload` false): the guard is skipped only for requests that do not carry the key."""
+    if not payload or not keys:
+        return False
+    g = cfg.g
+
+    def absent(a: int, b: int) -> bool:
+        lab = g[a][b].get("label")
+        if not lab:
+            return False
+        t = u(lab[0])
+        return any((t == f"{k!r} in {payload}" and lab[1] is False) or (t == f"{k!r} not in {payload}" and lab[1] is True) for k in keys)
+
+    seen, todo = {cfg.entry}, [cfg.entry]
+    while todo:
+        n = todo.pop()
+        for s_ in g.successors(n):
+            if s_ == guard or s_ in seen or absent(n, s_):
+                continue
+            if s_ == H:
+                return False
+            seen.add(s_)
+            todo.append(s_)
+    return True
+
+
 def _loop_dominates(cfg, guard: int, H: int) -> bool:
     """The guard sits in a loop whose header dominates H and H is only reachable after the loop is exhausted."""
     for c in cfg.nodes.values():
@@ -600,11 +628,20 @@ def _locally_guarded(prog: Prog, fn: Fn, cfg, pexpr: ast.AST, sink_call: ast.AST
     sink = cfg.node_for(sink_call)
     if sink is None:
         return False
+    # the variable and the locals it is a plain copy of (`root = parent`): a guard on any of them is a guard on the same value, and the
+    # definitions of all of them are the definitions to be covered
+    names = {var.id}
+    for _ in range(3):
+        for nm in list(names):
+            for kind, node in prog.local_defs(fn, nm):
+                v_ = getattr(node, "value", None)
+                if kind in ("assign", "walrus", "annassign") and isinstance(v_, ast.Name):
+                    names.add(v_.id)
     guard_true_edges = []
     for c in cfg.nodes.values():
         if c.kind == "cond":
             arg = guard_call_on(c.ast, fn)
-            if arg is not None and isinstance(arg, ast.Name) and arg.id == var.id:
+            if arg is not None and isinstance(arg, ast.Name) and arg.id in names:
                 for b in cfg.g.successors(c.id):
                     lab = cfg.g[c.id][b].get("label")
                     if lab and lab[1] is True:
@@ -614,7 +651,7 @@ def _locally_guarded(prog: Prog, fn: Fn, cfg, pexpr: ast.AST, sink_call: ast.AST
     g = cfg.g.copy()
     g.remove_edges_from(guard_true_edges)
     import networkx as nx
-    defs = [node for kind, node in prog.local_defs(fn, var.id) if kind in ("assign", "walrus", "annassign")]
+    defs = [node for nm in sorted(names) for kind, node in prog.local_defs(fn, nm) if kind in ("assign", "walrus", "annassign")]
     for d in defs:
         # only tainted, non-preserving definitions need the guard; judge all definitions conservatively except constants
         did = cfg.node_for(d)
